@@ -55,7 +55,7 @@ def _gauss_cases():
     def build(f):
         self = f.construct(O + 'Gaussian:Gaussian', sigma=f.real('sigma', pos=True), length=f.int('N', lo=1))
         return dict(self=self, k=f.array('k', (f.int('n', lo=0),)))
-    yield 'any N, sigma, k grid', build
+    yield 'any N, sigma, k grid', build, {'history': {'method': 'calculate', 'mutable': ('sigma', 'length'), 'other': True}}
 
 
 @contract('pyPRISM/omega/FreelyJointedChain.py::FreelyJointedChain.calculate', props=['C11'])
@@ -71,7 +71,7 @@ def _fjc_cases():
     def build(f):
         self = f.construct(O + 'FreelyJointedChain:FreelyJointedChain', length=f.int('N', lo=1), l=f.real('l', pos=True))
         return dict(self=self, k=f.array('k', (f.int('n', lo=0),)))
-    yield 'any N, l, k grid', build
+    yield 'any N, l, k grid', build, {'history': {'method': 'calculate', 'mutable': ('N', 'l'), 'other': True}}
 
 
 # --------------------------------------------------------------------------- Gaussian ring (sum over separations)
@@ -99,19 +99,70 @@ def _ring_cases():
 
 # --------------------------------------------------------------------------- DiscreteKoyama
 
-@contract('pyPRISM/omega/DiscreteKoyama.py::DiscreteKoyama.koyama_kernel_fourier', props=[], trusted=True,
-          notes='opaque per-separation kernel w_n(k): an (assumed) pointwise function of k_m, n and the chain parameters')
+def _mk_koyama(f, N):
+    """A DiscreteKoyama chain with arbitrary (symbolic) stored parameters.  Created by the real constructor (valid
+    numbers in its linearised branch) and then overwritten, so that it carries every attribute a real object has."""
+    return f.make(O + 'DiscreteKoyama:DiscreteKoyama', kwargs=dict(sigma=1.0, l=1.0, length=N, lp=1.334),
+                  sigma=f.real('sigma', pos=True), l=f.real('l', pos=True), lp=f.real('lp', pos=True), length=N,
+                  cos0=f.real('cos0'), cos1=f.real('cos1'), cos2=f.real('cos2'), epsilon=f.real('epsilon'), value=None)
+
+
+@contract('pyPRISM/omega/DiscreteKoyama.py::DiscreteKoyama.kernel_base', props=['C11'],
+          notes='TRUSTED FORMULA: the moments <r^2>, <r^4> of Honnell, Curro, Schweizer (1990), eqs 17-24, as transcribed in the '
+                'pinned source.  No independent statement of these equations is available here; this contract pins the shipped '
+                'transcription (regressions, hidden state), its agreement with the paper is assumed.')
+def DiscreteKoyama_kernel_base(self, n):
+    l = self.l
+    q = -self.cos1
+    p = (3 * self.cos2 - 1) / 2
+    a = (1 + q) / (1 - q)
+    D = n * n * a * a
+    D = D - n * (1 + (2 * q / ipow(1 - q, 3)) * (6 + 5 * q + 3 * q * q) - 4 * p / (1 - p) * a * a)
+    D = D + 2 * q / ipow(1 - q, 4) * (4 + 11 * q + 12 * q * q)
+    D = D - 4 * p / (1 - p) * (1 + 8 * q / ipow(1 - q, 3) + p / (1 - p) * a * a)
+    D = D - ipow(q, n) * 8 * q / ipow(1 - q, 3) * (n * (1 + 3 * q))
+    D = D - ipow(q, n) * 8 * q / ipow(1 - q, 3) * ((1 + 2 * q + 3 * q * q) / (1 - q))
+    D = D - ipow(q, n) * 8 * q / ipow(1 - q, 3) * (-2 * p / ipow(q - p, 2) * (n * (1 - q) * (q - p) + 2 * q * q - q * p - p))
+    D = D - 6 * ipow(q, 2 * n + 2) / ipow(1 - q, 4)
+    D = D + ipow(p, n) * (4 / (1 - p) * (1 + 8 * q / ipow(1 - q, 3) - a * a * (1 - p / (1 - p))))
+    D = D - ipow(p, n) * (16 * q * q / ipow(1 - q, 3) * (1 / ipow(q - p, 2)) * (q + q * q - 2 * p))
+    D = D * 2 / 3
+    c1 = self.cos1
+    r2 = n * l * l * ((1 - c1) / (1 + c1) + 2 * c1 / n * (1 - ipow(-c1, n)) / ipow(1 + c1, 2))
+    r4 = r2 * r2 + l * l * l * l * D
+    return (r2, r4)
+
+
+@cases(DiscreteKoyama_kernel_base)
+def _kb_cases():
+    def build(f):
+        return dict(self=_mk_koyama(f, 5), n=f.int('sep', lo=1))
+    yield 'any separation and stored parameters', build, {'history': {'method': 'kernel_base', 'other': True}}
+
+
+@contract('pyPRISM/omega/DiscreteKoyama.py::DiscreteKoyama.koyama_kernel_fourier', props=['C11'])
 def DiscreteKoyama_kernel(self, k, n):
-    p = (self.l, self.cos1, self.cos2)
-    return pointwise(k.shape, lambda m: koyama_w(k[m], n, p))
+    # the documented definition: sin(B k)/(B k) exp(-A^2 k^2),  A^2 = <r^2>(1-C)/6,  B^2 = C <r^2>,  C^2 = (5 - 3<r^4>/<r^2>^2)/2
+    r2, r4 = self.kernel_base(n)
+    C = sqrt(0.5 * (5 - 3 * r4 / (r2 * r2)))
+    B = sqrt(C * r2)
+    Asq = r2 * (1 - C) / 6
+    return pointwise(k.shape, lambda m: sin(B * k[m]) / (B * k[m]) * exp(-Asq * k[m] * k[m]))
+
+
+@cases(DiscreteKoyama_kernel)
+def _kf_cases():
+    def build(f):
+        return dict(self=_mk_koyama(f, 5), k=f.array('k', (f.int('nk', lo=0),), pos=True), n=f.int('sep', lo=1))
+    yield 'any separation, k grid and stored parameters', build, {'history': {'method': 'koyama_kernel_fourier', 'other': True}}
 
 
 @contract('pyPRISM/omega/DiscreteKoyama.py::DiscreteKoyama.calculate', props=['C11'])
 def DiscreteKoyama_calculate(self, k):
     N = self.length
-    p = (self.l, self.cos1, self.cos2)
     # defining pair sum over the N sites: each separation n occurs N-n times (twice, i<j and j<i), plus the N self terms
-    self.value = pointwise(k.shape, lambda m: 1.0 + (2.0 / N) * sum([(N - n) * koyama_w(k[m], n, p) for n in range(1, N)]))
+    w = [None] + [self.koyama_kernel_fourier(k=k, n=n) for n in range(1, N)]
+    self.value = pointwise(k.shape, lambda m: 1.0 + (2.0 / N) * sum([(N - n) * w[n][m] for n in range(1, N)]))
     return self.value
 
 
@@ -119,12 +170,8 @@ def DiscreteKoyama_calculate(self, k):
 def _dk_cases():
     for N in (2, 3, 4, 5, 6):
         def build(f, N=N):
-            DK = f.cls(O + 'DiscreteKoyama:DiscreteKoyama')
-            self = f.obj(O + 'DiscreteKoyama:DiscreteKoyama', sigma=f.real('sigma', pos=True), l=f.real('l', pos=True),
-                         lp=f.real('lp', pos=True), length=N, cos0=f.real('cos0'), cos1=f.real('cos1'),
-                         cos2=f.real('cos2'), epsilon=f.real('epsilon'), value=None)
-            return dict(self=self, k=f.array('k', (f.int('n', lo=0),), pos=True))
-        yield 'N=%d (loops unrolled: bounded in N)' % N, build
+            return dict(self=_mk_koyama(f, N), k=f.array('k', (f.int('n', lo=0),), pos=True))
+        yield 'N=%d (loops unrolled: bounded in N)' % N, build, ({'history': {'method': 'calculate', 'other': True}} if N == 3 else {})
 
 
 @contract('pyPRISM/omega/DiscreteKoyama.py::DiscreteKoyama.__init__', props=['C11'])
